@@ -19,6 +19,9 @@ DRIVE_TYPES = ["document", "presentation", "spreadsheets"]
 def is_amp_url(url):
     splitted = safe_urlsplit(url)
 
+    if not splitted.hostname:
+        return False
+
     if splitted.hostname.endswith(".ampproject.org"):
         return True
 
